@@ -17,6 +17,15 @@ def variants(a: np.ndarray, exact32: bool = False):
     two = np.stack([a, a])                                   # rows (2, n)
     out.append(("transposed-2-d", np.ascontiguousarray(two.T).T if False else np.ascontiguousarray(np.stack([a, a], axis=1)).T, (lambda r: r[0]), (2, len(a))))
     out.append(("fortran-2-d", np.asfortranarray(two), (lambda r: r[1]), (2, len(a))))
+    # an ndarray subclass with its own arithmetic (numpy.matrix: `*` and `**` are matrix products): the values are those of the elements
+    import warnings
+    with warnings.catch_warnings():
+        warnings.simplefilter("ignore")
+        out.append(("matrix-subclass-row", np.matrix(a.copy().reshape(1, -1)), (lambda r: np.asarray(r).reshape(-1)), (1, len(a))))
+        k = int(len(a) ** 0.5)
+        if k >= 2:
+            n2 = k * k
+            out.append(("matrix-subclass-square", np.matrix(a[:n2].copy().reshape(k, k)), (lambda r, n2=n2, a=a: np.concatenate([np.asarray(r).reshape(-1), np.full(len(a) - n2, np.nan)])), (k, k)))
     if exact32 and np.array_equal(a.astype(np.float32).astype(float), a, equal_nan=True):
         out.append(("float32", a.astype(np.float32), (lambda r: r), a.shape))
     return out
@@ -54,7 +63,12 @@ def check(ctx, key, case, fn, a, expected, atol=1e-15, exact32=False):
         if r.shape != shape:
             ctx.violation(f"{key}/argument-form/{label}/shape", dict(case, form=label), list(shape), list(r.shape))
             continue
-        if not np.allclose(back(r), expected, rtol=0, atol=atol, equal_nan=True):
+        got_ = back(r)
+        exp_ = np.asarray(expected, dtype=float)
+        if label == "matrix-subclass-square":
+            n2_ = shape[0] * shape[1]
+            got_, exp_ = got_[:n2_], exp_[:n2_]
+        if not np.allclose(got_, exp_, rtol=0, atol=atol, equal_nan=True):
             ctx.violation(f"{key}/argument-form/{label}/values", dict(case, form=label), np.asarray(expected).tolist(), back(r).tolist(),
                           note=f"a {label} array argument gives other values than the same values in a plain vector")
     check_long(ctx, key, case, fn, a, expected, atol)
